@@ -53,7 +53,12 @@ def scc(n, trivial, objs, rev, unknown_edge, skip_sinks, *bits):
             nb.append(stranger)
         if skip_sinks and not nb:
             continue          # node never passed to add_neighbors
-        g.add_neighbors(nodes[i], nb)
+        # the documented argument is an iterator: in reversed insertion order it is handed over as a one-shot iterator; without an
+        # unknown edge the strict mode (ignore_unknown=False) must accept the very same edges
+        if unknown_edge:
+            g.add_neighbors(nodes[i], iter(nb) if rev else nb)
+        else:
+            g.add_neighbors(nodes[i], iter(nb) if rev else nb, ignore_unknown=bool(objs))
     comps = []
     for c in g.sccs(trivial=trivial):
         comps.append(sorted(nodes.index(x) for x in c))
